@@ -44,9 +44,59 @@ def run(ctx):
     point_t(ctx)
     closed_forms(ctx)
     quad_fallback(ctx)
+    quad_conditioning(ctx)
+    cache_error(ctx)
     subdivision(ctx)
     n = cachecoh.check(ctx, "R15.5")
     ctx.need(n >= 8, "R15.5", "too few mutating methods recognised (%d)" % n)
+
+
+def quad_conditioning(ctx):
+    """The closed form of the quadratic length divides by powers of |a| (a = start - 2 control + end).  It is left through
+    ZeroDivisionError only when a is exactly 0; for a control point that is the chord midpoint up to rounding (|a| ~ 1e-16,
+    e.g. Q 0.4,0.5 0.7,0.3 from 0.1,0.7) it returns half the true length.  The formula must be entered only when |a| is not
+    negligible against |b|: a comparison of the two magnitudes that leaves before the division."""
+    q = ctx.fn("QuadraticBezier.length", "R15.3")
+    tr = [x for x in ast.walk(q) if isinstance(x, ast.Try)]
+    ctx.need(len(tr) == 1, "R15.3", "QuadraticBezier.length: closed-form block not found")
+    avar = bvar = None
+    for st in q.body:
+        if isinstance(st, ast.Assign) and isinstance(st.targets[0], ast.Name):
+            src = ast.unparse(st.value).replace(" ", "")
+            if "2*self.control" in src and "self.start" in src and "self.end" in src:
+                avar = st.targets[0].id
+            elif src.startswith("2*(self.control-self.start)") or src.startswith("2*(self.control-self.start)".replace("2*(", "(").replace(")", ")*2")):
+                bvar = st.targets[0].id
+    ctx.need(avar is not None and bvar is not None, "R15.3", "QuadraticBezier.length: second difference / first difference locals not found")
+
+    def mag(n, v):
+        return isinstance(n, ast.Call) and call_name(n) == "abs" and len(n.args) == 1 and isinstance(n.args[0], ast.Name) and n.args[0].id == v
+
+    def relative(test):
+        if isinstance(test, ast.Compare) and len(test.ops) == 1 and isinstance(test.ops[0], (ast.Lt, ast.LtE, ast.Gt, ast.GtE)):
+            l, r = test.left, test.comparators[0]
+            sides = [l, r]
+            has_a = any(mag(x, avar) or (isinstance(x, ast.BinOp) and any(mag(y, avar) for y in ast.walk(x))) for x in sides)
+            has_b = any(mag(x, bvar) or (isinstance(x, ast.BinOp) and any(mag(y, bvar) for y in ast.walk(x))) for x in sides)
+            return has_a and has_b
+        return False
+
+    guards = [st for st in stmts_in(q.body) if isinstance(st, ast.If) and relative(st.test) and st.lineno < tr[0].lineno + 3
+              and any(isinstance(x, (ast.Return, ast.Raise)) for x in st.body)]
+    ctx.ob("R15.3", "QuadraticBezier.length[closed form entered only when |a| is not negligible against |b|]", bool(guards),
+           "; ".join(ast.unparse(g.test) for g in guards) or "only the ZeroDivisionError/ValueError handler leads to the straight-line case", q.lineno,
+           "a control point at the chord midpoint up to rounding leaves |a| ~ 1e-16: no exception, and the closed form has no correct digit (a straight line of length 0.72 measures 0.52)")
+
+
+def cache_error(ctx):
+    """length(error=...) and point(t, error=...) go through Shape._calc_lengths, which keeps what it computed first.  The cached
+    value is reused whatever accuracy the next caller asks for."""
+    fn = ctx.fn("Shape._calc_lengths", "R15.5")
+    early = [st for st in fn.body if isinstance(st, ast.If) and any(isinstance(x, ast.Return) for x in st.body) and "_length" in ast.unparse(st.test)]
+    ctx.need(bool(early), "R15.5", "Shape._calc_lengths: cache test not found")
+    consults = any(any(isinstance(n, ast.Name) and n.id in ("error", "min_depth") for n in ast.walk(st.test)) for st in early)
+    ctx.ob("R15.5", "Shape._calc_lengths[cache remembers the accuracy it was computed with]", consults, "; ".join(ast.unparse(st.test) for st in early), fn.lineno,
+           "length(error=1e-4) followed by length(error=1e-9) returns the 1e-4 value again: the early return does not look at the requested error")
 
 
 def _passes(call, pname, pos):
@@ -207,6 +257,20 @@ def point_t(ctx):
     ctx.ob("R15.2", "Shape.point[result]", bool(rets) and all(isinstance(r.value.func.value, ast.Name) and r.value.func.value.id in segnames for r in rets), "", lp.lineno, "the result is a point of the selected segment")
     calc = [c for earlier in fn.body[:fn.body.index(lp)] for c in ast.walk(earlier) if isinstance(c, ast.Call) and attr_chain(c.func) == ["self", "_calc_lengths"]]
     ctx.ob("R15.2", "Shape.point[uses the cached fractions]", bool(calc), "", fn.lineno, "fractions are computed on demand when absent")
+    # the fractions are rounded quotients: their running sum can end just below a position just below 1.  When no interval
+    # claims the position the answer is the END of the last segment - the local parameter the result uses must be 1 then.
+    posargs = {a.id for r in rets for a in r.value.args if isinstance(a, ast.Name)}
+    ctx.need(len(posargs) == 1, "R15.2", "Shape.point: local parameter variable not found")
+    pv = list(posargs)[0]
+
+    def is_one(v):
+        return isinstance(v, ast.Constant) and v.value == 1 and not isinstance(v.value, bool)
+
+    in_else = any(isinstance(x, ast.Assign) and isinstance(x.targets[0], ast.Name) and x.targets[0].id == pv and is_one(x.value) for x in lp.orelse)
+    before = [x for x in fn.body[:fn.body.index(lp)] if isinstance(x, ast.Assign) and isinstance(x.targets[0], ast.Name) and x.targets[0].id == pv]
+    init_one = bool(before) and is_one(before[-1].value)
+    ctx.ob("R15.2", "Shape.point[no interval claims t: end of the last segment]", in_else or init_one, "loop else sets %s = 1: %s; initialised to 1: %s" % (pv, in_else, init_one), lp.lineno,
+           "for t = 0.9999999999999999 the loop can run out (the rounded fractions sum to less); with the local parameter left at 0 the START of the last segment is returned")
 
 
 class _Frac(ast.NodeTransformer):
